@@ -16,7 +16,7 @@ RULE = (
     "clauses. Non-trivial = configuration whose probes include a value within one ulp of a threshold or integer crossing "
     "(all do by construction); distinct = distinct case JSON."
 )
-QUICK = {"examples": 3200, "shards": 16, "budget_s": 300}
+QUICK = {"examples": 6400, "shards": 16, "budget_s": 300}
 THOROUGH = {"examples": 16000, "shards": 16, "budget_s": 2400}
 ASSUMPTIONS = [
     "the monotonic corollary is asserted for ploidy >= 2 only: at ploidy 1 the defining sentence itself gives 3 at log2 0.7 and ceil(2^0.71)=2 just above",
